@@ -384,6 +384,24 @@ fn truncate2k_large_k() -> serde_json::Value {
     json!({"found": false, "routine": "truncate2k_large_k", "tried": 12})
 }
 
+// C09: adding a GetSlice node with a huge step must give Ok or Err, never a panic
+fn slice_overflow() -> serde_json::Value {
+    use ciphercore_base::graphs::SliceElement;
+    for (b, e, st) in [(Some(1i64), None, Some(i64::MAX)), (Some(-2i64), None, Some(i64::MIN)), (Some(1), Some(5), Some(i64::MAX - 1))] {
+        let r = catch_unwind(AssertUnwindSafe(|| {
+            let c = create_context().unwrap();
+            let g = c.create_graph().unwrap();
+            let a = g.input(array_type(vec![10], INT32)).unwrap();
+            a.get_slice(vec![SliceElement::SubArray(b, e, st)]).is_ok()
+        }));
+        if r.is_err() {
+            return json!({"found": true, "routine": "slice_overflow", "property": "C09", "input": {"shape": [10], "slice": format!("SubArray({:?}, {:?}, {:?})", b, e, st)},
+                "expected": "Ok(node) or Err(..) when the node is added", "observed": "panic: attempt to add with overflow (slices.rs get_slice_shape_1d)", "what": "g.get_slice on an i32[10] input"});
+        }
+    }
+    json!({"found": false, "routine": "slice_overflow", "tried": 3})
+}
+
 fn main() {
     let args: Vec<String> = std::env::args().collect();
     let seed: u64 = args.get(2).and_then(|s| s.parse().ok()).unwrap_or(0);
@@ -395,6 +413,7 @@ fn main() {
         Some("ctx_corrupt_payload") => ctx_corrupt("payload"),
         Some("value_corrupt") => value_corrupt(),
         Some("truncate2k_large_k") => truncate2k_large_k(),
+        Some("slice_overflow") => slice_overflow(),
         Some("party_sim_c01") => party_sim::run(seed, "C01"),
         Some("party_sim_c02") => party_sim::run(seed, "C02"),
         Some("party_sim_c03") => party_sim::run(seed, "C03"),
